@@ -120,6 +120,8 @@ func init() {
 		"internal/bytealg.IndexByteString": inIndexByteString,
 		"internal/bytealg.CountString":     inCountString,
 		"internal/bytealg.MakeNoZero":      inMakeNoZero,
+		"internal/bytealg.IndexByte":       inIndexByteSlice,
+		"bytes.IndexByte":                  inIndexByteSlice,
 		"internal/bytealg.IndexString":     inIndexString,
 		"strings.Index":                    inIndexString,
 		"strings.Count":                    inStringsCount,
@@ -1463,4 +1465,23 @@ func inBuilderString(e *Exec, s *State, f *Frame, fn *ssa.Function, args []Value
 	sl := s.load(p).(SliceV)
 	bt := types.NewSlice(types.Typ[types.Uint8])
 	return e.ret(f, result, e.convert(s, bt, types.Typ[types.String], sl))
+}
+
+// IndexByte on a byte slice: concrete when every byte up to the first match is concrete.
+func inIndexByteSlice(e *Exec, s *State, f *Frame, fn *ssa.Function, args []Value, result ssa.Value) (stepResult, bool) {
+	sl := args[0].(SliceV)
+	c := args[1].(*Term)
+	if !c.IsConst() {
+		panic(unsupported("IndexByte with symbolic needle"))
+	}
+	for i, el := range s.sliceElems(sl) {
+		t := el.(*Term)
+		if !t.IsConst() {
+			panic(unsupported("IndexByte over symbolic bytes"))
+		}
+		if t.Val == c.Val {
+			return e.ret(f, result, BV(64, uint64(i)))
+		}
+	}
+	return e.ret(f, result, BV(64, ^uint64(0)))
 }
